@@ -23,7 +23,7 @@ def run_programs(fxv, rd, jobs, par=12):
                 info.update(json.loads(line))
             except Exception:
                 pass
-        return {"tag": tag, "trace": trace, "rc": rc, "info": info, "stderr": se[-2000:],
+        return {"tag": tag, "trace": trace, "rc": rc, "info": info, "stderr": v.clip_stderr(se, 2000),
                 "args": args}
     try:
         return v.parallel_map(one, jobs, jobs=par)
